@@ -119,7 +119,14 @@ class PropValue:
             elem_type = typ.unwrap_sequence().elem_type
             return cls(typ, [cls.from_ref_value(elem_type, elem) for elem in value])
         else:  # otherwise must have Tensor (sometimes this is just a scalar)
-            return cls(typ, np.array(value))
+            array = np.array(value)
+            # The reference implementation returns string tensors (StringConcat, StringSplit, ...)
+            # as object arrays of ``str`` - normalise them to a string array, like ``from_ort_value``.
+            if array.dtype == np.dtype(object) and all(
+                isinstance(x, str) for x in array.flat
+            ):
+                array = array.astype(str)
+            return cls(typ, array)
         # No fail branch because representations of Tensor are inconsistent
 
     @classmethod
